@@ -55,6 +55,9 @@ def graphOf {α : Type} [Inhabited α] (n : Nat) (indptr indices : Array Nat) (d
 
 def coreFuel : Nat := 100000
 
+/-- aggregations the model of `Leiden.fit` allows (the code has no limit; `fuel` would be reported) -/
+def outerFuel : Nat := 10000
+
 def handle : Handler
   -- get_modularity: <nRow> <nCol> <indptr> <indices> <data> <labels> <labels_col|_> <weights> <resolution>
   | "c06.mod", [n, m, ip, ix, dt, lab, labc, w, res] => some <| Option.getD (do
@@ -115,9 +118,11 @@ def handle : Handler
       let res ← res.toNat?
       let tol ← tol.toNat?
       let g := graphOf n ip.toArray ix.toArray dt.toArray sl.toArray ow.toArray iw.toArray
-      match optimizeCore g (f32 res) (f32 tol) coreFuel { labels := lab, outCl := oc, inCl := ic, cw := cw } with
-      | none => some "fuel"
-      | some (l, inc) => some s!"ok {showList l} {bits inc}") "bad-args"
+      let st : St Float32 := { labels := lab, outCl := oc, inCl := ic, cw := cw }
+      let r := optimizeCoreCapped g (f32 res) (f32 tol) st
+      -- third figure: 1 when the kernel's bound on the passes (n + 1) is what ended the loop
+      let capped := (coreLoop g (f32 res) (f32 tol) (n + 1) st Scalar.zero).isNone
+      some s!"ok {showList r.1} {bits r.2} {showBool capped}") "bad-args"
   -- optimize_core in exact arithmetic
   | "c06.coreq", [n, ip, ix, dt, lab, ow, iw, oc, ic, cw, sl, res, tol] => some <| Option.getD (do
       let n ← n.toNat?
@@ -134,9 +139,8 @@ def handle : Handler
       let res ← rat? res
       let tol ← rat? tol
       let g := graphOf n ip.toArray ix.toArray dt.toArray sl.toArray ow.toArray iw.toArray
-      match optimizeCore g res tol coreFuel { labels := lab, outCl := oc, inCl := ic, cw := cw } with
-      | none => some "fuel"
-      | some (l, inc) => some s!"ok {showList l} {showRat inc}") "bad-args"
+      let r := optimizeCoreCapped g res tol { labels := lab, outCl := oc, inCl := ic, cw := cw }
+      some s!"ok {showList r.1} {showRat r.2}") "bad-args"
   -- optimize_refine_core in float32; <rands> = the successive values of rand()
   | "c06.refine", [n, ip, ix, dt, lab, refd, ow, iw, oc, ic, cw, sl, res, rands] => some <| Option.getD (do
       let n ← n.toNat?
@@ -171,7 +175,22 @@ def handle : Handler
       let c ← csrRat? n m ip ix dt
       let fb ← bool? fb
       let mat := denseOf c
-      match louvainFit kind res tolO tolA nAgg c.nRow c.nCol c.indices.size (at2 mat) fb coreFuel with
+      match louvainFitCapped kind res tolO tolA nAgg c.nRow c.nCol c.indices.size (at2 mat) fb with
+      | .error e => some (showErr e)
+      | .ok none => some "fuel"
+      | .ok (some o) => some s!"ok {showList o.labels} {showRatList o.increases}") "bad-args"
+  -- Louvain.fit with shuffle_nodes=True (sort_clusters=False): <index> = the permutation drawn by the random state
+  | "c06.louvain_shuffled", [kind, res, tolO, tolA, nAgg, n, m, ip, ix, dt, fb, index] => some <| Option.getD (do
+      let kind ← kind? kind
+      let res ← rat? res
+      let tolO ← rat? tolO
+      let tolA ← rat? tolA
+      let nAgg ← nAgg.toInt?
+      let c ← csrRat? n m ip ix dt
+      let fb ← bool? fb
+      let index ← natList? index
+      let mat := denseOf c
+      match louvainFitShuffled kind res tolO tolA nAgg c.nRow c.nCol c.indices.size (at2 mat) fb index with
       | .error e => some (showErr e)
       | .ok none => some "fuel"
       | .ok (some o) => some s!"ok {showList o.labels} {showRatList o.increases}") "bad-args"
@@ -185,7 +204,7 @@ def handle : Handler
       let fb ← bool? fb
       let rands ← natListList? rands
       let mat := denseOf c
-      match leidenFit kind res tolO tolA nAgg c.nRow c.nCol c.indices.size (at2 mat) fb coreFuel rands with
+      match leidenFit kind res tolO tolA nAgg c.nRow c.nCol c.indices.size (at2 mat) fb outerFuel rands with
       | .error e => some (showErr e)
       | .ok none => some "fuel"
       | .ok (some o) => some s!"ok {showList o.labels} {showRatList o.increases}") "bad-args"
@@ -220,6 +239,38 @@ def handle : Handler
       let comps := clustersWithinComponents k A cl
       some (if notWorse && logged && comps then "holds"
             else s!"fails notworse={showBool notWorse} logged={showBool logged} components={showBool comps} q0={showRat q0} q1={showRat q1} sum={showRat total}")) "bad-args"
+  -- the two objective clauses on graphs with hundreds of nodes: per-cluster form of the objective
+  -- (`objectiveFast`, proved equal to `objective`); the component clause is not evaluated here
+  | "c06.spec_fit_big", [kind, res, n, m, ip, ix, dt, fb, lab, incs, eps] => some <| Option.getD (do
+      let kind ← kind? kind
+      let res ← rat? res
+      let c ← csrRat? n m ip ix dt
+      let fb ← bool? fb
+      let lab ← natList? lab
+      let incs ← ratList? incs
+      let eps ← rat? eps
+      let mat := denseOf c
+      let (k, A) := kindAdj kind c.nRow c.nCol (at2 mat) fb
+      if lab.length != k then none
+      let labA := lab.toArray
+      let cl : Nat → Nat := fun i => labA.getD i 0
+      let dout : Array Rat := (Array.range k).map fun i => outDeg k A i
+      let din : Array Rat := (Array.range k).map fun j => inDeg k A j
+      let w : Rat := dout.foldl (· + ·) 0
+      let o : Nat → Rat := match kind with
+        | .potts => fun _ => 1 / (k : Rat)
+        | _ => fun i => dout.getD i 0 / w
+      let i_ : Nat → Rat := match kind with
+        | .potts => fun _ => 1 / (k : Rat)
+        | .dugue => fun j => din.getD j 0 / w
+        | _ => fun j => dout.getD j 0 / w
+      let q1 := objectiveFast k A w o i_ res cl (nLabels lab)
+      let q0 := objectiveFast k A w o i_ res id k
+      let total := incs.foldl (· + ·) 0
+      let notWorse := decide (q0 - eps ≤ q1)
+      let logged := decide (absR (q1 - q0 - total) ≤ eps)
+      some (if notWorse && logged then "holds"
+            else s!"fails notworse={showBool notWorse} logged={showBool logged} q0={showRat q0} q1={showRat q1} sum={showRat total}")) "bad-args"
   | _, _ => none
 
 end SkNet.Drive.C06
